@@ -328,6 +328,57 @@ func ruleWEB7(w *World, r *Report) {
 		}
 	}
 	r.Count("mutating_engine_calls_in_handlers", n)
+	// WEB-7b: a handler that strings several mutating engine calls together answers with an error status (4xx or 5xx)
+	// only while nothing has been changed yet: once one mutating call succeeded, the failure of a LATER engine call
+	// must not become the response (steps whose failure is tolerated are logged, the rejecting step comes first)
+	r.Doc("WEB-7b", "in a handler with several mutating engine calls, no error status is written for the failure of a later call after an earlier mutating call succeeded: the step that can reject the request runs before the steps that change the database", 1)
+	isErrStatus := func(in ssa.Instruction) bool { s, ok := statusOf(in); return ok && s >= 400 }
+	m := 0
+	for _, fi := range serverHandlers(w, r, "WEB-7b") {
+		fn := w.SSAFunc(fi.Obj)
+		if fn == nil {
+			continue
+		}
+		for _, f := range append([]*ssa.Function{fn}, closuresOf(fn)...) {
+			isMut := func(in ssa.Instruction) bool {
+				c, ok := in.(*ssa.Call)
+				if !ok {
+					return false
+				}
+				o := calleeObj(&c.Call)
+				return o != nil && relPkg(o) == "pkg/engine" && eff[o.Name()]
+			}
+			muts := findInstrs(f, isMut)
+			if len(muts) < 2 {
+				continue
+			}
+			for i, in := range muts {
+				c := in.(*ssa.Call)
+				// error responses reachable after this call succeeded, through the FAILURE edge of a later mutating call
+				bad := false
+				var wit []ssa.Instruction
+				for _, later := range muts {
+					if later == in {
+						continue
+					}
+					lc := later.(*ssa.Call)
+					if reach, _ := (pathQuery{fn: f, target: func(x ssa.Instruction) bool { return x == later }, blocked: failureEdges(f, c)}).find(posOf(in)); !reach {
+						continue
+					}
+					for e := range failureEdges(f, lc) {
+						if fnd, wv := (pathQuery{fn: f, target: isErrStatus}).find(ipos{e.from.Succs[e.succ], -1}); fnd {
+							bad, wit = true, wv
+						}
+					}
+				}
+				m++
+				r.Cond(!bad, "WEB-7b", fmt.Sprintf("%s:%s#%d:later-failure-not-answered-as-error", fi.Obj.Name(), calleeObj(&c.Call).Name(), i+1), w.Pos(c.Pos()), "no later engine failure becomes an error response once this call has changed the database", fi.Obj.Name()+" answers with an error status when a later engine call fails although "+calleeObj(&c.Call).Name()+" has already changed the database: the client is told the request failed, but part of it has taken effect (and is journaled)", w.witness(wit)...)
+			}
+		}
+	}
+	if m == 0 {
+		r.Ok("WEB-7b", "no-composite-handler", "", "no handler strings several mutating engine calls together")
+	}
 }
 
 // ---------- WEB-8 path confinement ----------
@@ -503,4 +554,41 @@ func addrInLocalStruct(v ssa.Value, depth int) bool {
 		return addrInLocalStruct(x.X, depth+1)
 	}
 	return false
+}
+
+// ruleWEBverbatim: the fusion weight a client sends reaches the engine as sent. alpha = 0 is a meaningful request
+// (pure text ranking) and cannot be told apart from an omitted field once a handler has "defaulted" it.
+func ruleWEBverbatim(w *World, r *Report) {
+	r.Doc("WEB-verbatim", "no HTTP handler stores into the Alpha field of a decoded request: the fusion weight reaches the engine as the client sent it (0 and 1 included)", 1)
+	n := 0
+	for _, fi := range w.ModuleFuncs() {
+		if relPkg(fi.Obj) != "internal/server" {
+			continue
+		}
+		fn := w.SSAFunc(fi.Obj)
+		if fn == nil {
+			continue
+		}
+		for _, f := range append([]*ssa.Function{fn}, closuresOf(fn)...) {
+			for _, b := range f.Blocks {
+				for _, in := range b.Instrs {
+					st, ok := in.(*ssa.Store)
+					if !ok {
+						continue
+					}
+					fa, ok := st.Addr.(*ssa.FieldAddr)
+					if !ok {
+						continue
+					}
+					if _, fld := structFieldName(fa.X.Type(), fa.Field); fld == "Alpha" {
+						n++
+						r.Bad("WEB-verbatim", shortName(fi.Obj)+":rewrites-alpha", w.Pos(st.Pos()), shortName(fi.Obj)+" overwrites the alpha of the decoded request: a client that asks for alpha = 0 (pure text ranking) — or whose client library omits a zero field — gets a different fusion than it asked for, while the same request through the engine API is ranked as specified")
+					}
+				}
+			}
+		}
+	}
+	if n == 0 {
+		r.Ok("WEB-verbatim", "alpha-reaches-the-engine-as-sent", "", "no handler stores into a request's Alpha field")
+	}
 }
